@@ -45,6 +45,10 @@ def streams(tier, seed):
     yield "pros_exhaustive", pros_exh, 2500
     yield "pros_random", list(seq.pros_random(rng, 2000 if quick else 40000, 16)), 2000
     yield "prostok_random", list(seq.prostok_random(rng, 800 if quick else 15000, 10)), 500
+    # histories of calls in ONE process: all segmentations of a string in varied order, then random words
+    yield "prosseq_exhaustive", list(seq.prosseq_exhaustive(rng, "aits", 3, 4 if quick else None)) + \
+        ([] if quick else list(seq.prosseq_exhaustive(rng, "ait", 4, 6))), 500
+    yield "prosseq_random", list(seq.prosseq_random(rng, 600 if quick else 12000, 7)), 500
     yield "c2t_exhaustive", list(seq.c2t_exhaustive(3, 4 if quick else 5)), 2500
     yield "c2t_random", list(seq.c2t_random(rng, 1500 if quick else 30000, 10)), 2000
 
@@ -76,13 +80,16 @@ def main(tier, seed, prop=PROP, prop_bits=PROP_BITS):
         "cases: ipa = (keyword strings, input string, outputs of ipa2tokens for every merge_vowels x merge_geminates "
         "x semi_diacritics setting); t2c = (converter, token list, cldf, token2class per token, tokens2class); "
         "pros = (sonority list, _output mode, prosodic_string, prosodic_weights); prostok = (token list, art model, "
-        "sonority profile, prosodic string); c2t = (tokens, aligned class string, prefix/suffix, class2tokens global "
+        "sonority profile, prosodic string); prosseq = a history of calls in one process (tokens2class, sonority, "
+        "prosodic_string, prosodic_weights on several segmentations of the same characters and cldf settings, order "
+        "varied; every segmentation of every string of length 2-3 over 4 characters); c2t = (tokens, aligned class string, prefix/suffix, class2tokens global "
         "and local).  Exhaustive small scopes: all strings of length <= %s over 17 representative characters (one per "
         "character class and overlap of classes), all tokens of length <= %s over 7 characters against 3 small "
         "converters, all sonority lists over 0..9 of length <= %s (and over {0,1,2,3,7,8,9} up to length %s), all class strings over {K,-,X} of length <= %s "
         "against <= 3 tokens; the rest seeded random (all %d loadable shipped models).  Non-trivial: ipa = some "
         "token has more than one character; t2c = a token is resolved through a fallback branch and the call returns; "
-        "pros/prostok = length >= 2 and the call returns; c2t = at least one gap inserted into a non-empty token list; "
+        "pros/prostok = length >= 2 and the call returns; prosseq = at least two different segmentations of the same "
+        "characters and every call returns; c2t = at least one gap inserted into a non-empty token list; "
         "distinct by full input." % ((("3 (+ sample of 4)", 3, 3, 4, 4) if tier == "quick" else (4, 4, 4, 6, 5)) +
                                      (len(seq._state.get("models", {})),)))
     c["exhaustive"] = False
@@ -114,5 +121,6 @@ def replay(path):
     bad = coqrun.eval_cases(d, "replay", seq.IMPORTS, CASE_TYPE, CODE_FN, [seq.render(case, res)])
     code = bad.get(0, 0)
     print(json.dumps({"impl": res, "code": code,
-                      "failed": [seq.BITS[k] for k in range(8) if code >> k & 1]}, indent=1, ensure_ascii=False))
+                      "failed": [seq.BITS[k] for k in range(8) if code >> k & 1]}, indent=1, ensure_ascii=False,
+                     default=str))
     return 1 if bad else 0
